@@ -45,7 +45,7 @@ var disturbances = map[bool][]string{
 		"blocks btc 1", "blocks btc 503", "blocks btc 504", "blocks lbtc 59", "blocks lbtc 60", "claimpaid force", "feepaid force", "csv",
 		"fault send down", "fault height.btc down", "fault height.lbtc down", "fault preimage down", "fault decode down",
 		"fault outputscript down", "fault spendable down", "fault probe unsuccessful",
-		"payout fail", "payout pending", "settle success", "settle fail", "agree", "agree badpubkey",
+		"payout fail", "payout pending", "settle success", "settle fail", "settle success later", "settle fail later", "agree", "agree badpubkey",
 	},
 	false: { // maker
 		"timeout", "cancel", "cancel from=third", "coop", "coop badkey", "coop from=third", "csv", "csv keep", "claimpaid", "claimpaid force", "feepaid", "feepaid force",
